@@ -202,10 +202,10 @@ CHECKS["C03"] = dict(
 
 CHECKS["C14"] = dict(
     technique="symbolic tensor execution of the real belief-propagation classes and entry points on symbolic positive / real / complex entries; every normalising division is a defined inverse whose denominators the decision procedure clears (rational-function identities); sign forks (SX) for abs() on real data; eigh/svd contract stubs + certificates for BP gauging and compression",
-    text="Bounded symbolic model checking: on acyclic networks (paths of 3-4, star of 4, forests, a label on 3 tensors, lazy sites with inner tensors, states with physical legs; bond 2, 3 for the "
+    text="Bounded symbolic model checking: on acyclic networks (paths of 3-4, star of 4, forests incl. isolated sites and scalar tensors, open legs for the hyper flavours, a label on 3 tensors, lazy sites with inner tensors, states with physical legs; bond 2, 3 for the "
          "1-norm dense / hyper flavours; <= 5 tensors), after diameter + 1 rounds every flavour's contract() / contract_*bp equals the exact value or <psi|psi>, every converged message is "
          "proportional to the exact cavity contraction, index / tensor marginals and BP reduced density matrices times the exact normaliser equal the exact unnormalised marginals, for all "
-         "entry values; results are independent of update order, local_convergence, normalisation and (symbolic) initial messages, damping leaves a fixed point fixed; untruncated BP gauging "
+         "entry values; results are independent of update order, local_convergence, normalisation and (symbolic) initial messages, damping leaves a fixed point fixed and every flavour calls the damping function as (old, new); untruncated BP gauging "
          "and compression leave the dense state unchanged; tree region counting numbers combined by combine_local_contractions reproduce the value.",
     note="Trusted: z3, qv engines, eigh/svd contracts, the square-matrix inverse lemma (Pr Pl = I => Pl Pr = I). Symbolic runs use the documented callable distance=, smudge_factor=0 and dict "
          "messages; library defaults run numerically. Numeric only: contract() on real signed data beyond ~5 regions, signed / complex 2-norm states, D2BP on 4 connected tensors, "
